@@ -186,7 +186,8 @@ def proof_gate(prop, timeout=1500):
             res["axioms"][name] = []
             res["discharged"] += 1
         else:
-            ax = re.findall(r"^([\w.']+)\s*:", b, re.M)
+            # the block also holds the header `Axioms:` and the output of the next `Check (<theorem> : ...)`
+            ax = [a for a in re.findall(r"^([\w.']+)\s*:", b, re.M) if a != "Axioms" and a not in names]
             res["axioms"][name] = ax
             notok = [a for a in ax if a.split(".")[-1] not in ALLOWED_AXIOMS and a not in ALLOWED_AXIOMS]
             if notok:
